@@ -34,6 +34,9 @@ pub mod algorithm {
 pub mod engine;
 pub mod rate;
 
+#[cfg(feature = "verif-hooks")]
+pub mod verif_hooks;
+
 // ======================================================================
 // Error - PUBLIC
 
